@@ -22,7 +22,10 @@ def run(ctx):
     camp = codec.Campaign(ctx, types, specs, with_py=True, batch=ctx.pick(40, 60))
     camp.build()
     codec.report_gen_failures(camp, ctx, PROP)
-    vcases = codec.value_cases(camp, ctx.rng, ctx.pick(1, 4), 0, n_boundary=ctx.pick(3, 8))
+    # values outside the declared range as well (C / C++ objects can hold them; Python is left out of those cases): saturation and truncation
+    # must not depend on the option set either
+    vcases = codec.value_cases(camp, ctx.rng, ctx.pick(1, 4), ctx.pick(1, 3), n_boundary=ctx.pick(3, 8))
+    vcases = [c for c in vcases if c["klass"] != "invalid"]
     out = camp.ser_events(vcases)
     valid = {}
     for c in vcases:
@@ -32,7 +35,7 @@ def run(ctx):
     dcases, rcases = [], []
     for ti, t in enumerate(camp.types):
         maxb = codec.dsdl.max_bits_body(t) // 8
-        bs = codec.byte_strings(ctx.rng, valid.get(ti, []), maxb, ctx.pick(2, 6), False)
+        bs = codec.byte_strings(ctx.rng, valid.get(ti, []), maxb, ctx.pick(2, 6), False, evolve=lambda enc, t=t: codec.dsdl.evolve(t, enc, ctx.rng, limit=3))
         for data, why in bs:
             if why in ("valid", "random", "bitflip", "extended", "empty") or ctx.rng.random() < 0.5:
                 dcases.append({"ti": ti, "data": data, "why": why, "case": camp.new_case(), "null": why == "null", "priors": (0,)})
@@ -54,7 +57,22 @@ def run(ctx):
     ctx.cov["calls_without_return"] = len(crashes)
     rej = camp.judge()
     # des(ser(v)) = Cast(v): a decoding failure on a valid encoding also breaks the round trip
-    codec.report(camp, ctx, rej, PROP, also=lambda clause, info: clause.startswith("des.") and info.get("why") == "valid")
+    # a per-record clause (wrong bytes / value / result) that rejects the record of ONE option set while the base option set of the same language
+    # processed the same stimulus as specified is a dependence on the option: this property's business, whoever owns the clause otherwise
+    case_of = {r["id"]: r["case"] for r in camp.records}
+    by_case = {}
+    for r in camp.records:
+        by_case.setdefault(r["case"], {})[camp.stim[r["id"]]["target"]] = r["id"]
+    base = {"c": "c/any", "cpp": "cpp/c++14"}
+
+    def option_dependent(rid):
+        tgt = camp.stim[rid]["target"]
+        b = base.get(codec.target_kind(tgt))
+        bid = by_case.get(case_of[rid], {}).get(b)
+        return b is not None and tgt != b and bid is not None and bid not in rej
+
+    own_ids = {rid for rid in rej if option_dependent(rid)}
+    codec.report(camp, ctx, rej, PROP, also=lambda clause, info: (clause.startswith("des.") and info.get("why") == "valid") or info.get("rid") in own_ids)
     codec.count_distinct(camp, ctx)
     codec.selftest_cross(ctx, camp)
     r = next(x for x in camp.records if x["ev"] == "rt")
